@@ -264,6 +264,12 @@ SPECIAL_LAYOUTS = [
      "R", ["flags", "n", "d", "t"]),
     ("count_from_optional", "class R%(V)s(Packet):\n    __bisturi__ = %(O)r\n    flags = Int(1)\n    n = Int(1).when(flags & 1)\n    l = Int(2).repeated(n)\n    t = Int(1)\n",
      "R", ["flags", "n", "l", "t"]),
+    # a position steered by a signed field: corrupted inputs put the cursor anywhere, also before the start of the data; whatever the
+    # field loop makes of such an input (it reads with Python's slice rules), the generated code must make the same of it
+    ("signed_shift", "class R%(V)s(Packet):\n    __bisturi__ = %(O)r\n    rel = Int(1, signed=True)\n    pad = Int(2)\n    body = Data(4).shift(rel)\n    tail = Int(2)\n",
+     "R", ["rel", "pad", "body", "tail"]),
+    ("signed_at", "class R%(V)s(Packet):\n    __bisturi__ = %(O)r\n    pad = Int(2)\n    pos = Int(1, signed=True)\n    body = Data(3).at(pos)\n    n = Int(3)\n",
+     "R", ["pad", "pos", "body", "n"]),
     ("nested_size_from_optional", "class S%(V)s(Packet):\n    __bisturi__ = %(O)r\n    flags = Int(1)\n    n = Int(1).when(flags & 1)\n    d = Data(n)\n\nclass R%(V)s(Packet):\n    __bisturi__ = %(O)r\n    h = Int(1)\n    s = Ref(S%(V)s)\n    t = Int(1)\n",
      "R", ["h", "s.flags", "s.n", "s.d", "t"]),
 ]
@@ -299,6 +305,13 @@ def descriptor_hooks_part(run, rng):
                 inputs = [bytes(rng.randrange(256) for _ in range(rng.choice([0, 2, 3, 5, 8, 12, 20]))) for _ in range(10)]
                 inputs += [bytes([3, 0xF5, 0x41, 0x42, 0x43, 0xF7, 0x3B, 0xF2, 0xF3, 0xF4, 0xF5, 0xF6]), b"\x02\xf1;\xf2\xf3;" + bytes(range(0xE0, 0xF0)),
                            b"ab:cd;\x07ef;gh", b"\x02\x01\x02\xa5\x01\x02\x09", b"\x00\x05abcde", b"\x01\x02ab\x09\x08", b"\x07\x01\x02ab\x09", b"\x07\x00\x02ab\x09"]
+                if lname in ("signed_shift", "signed_at"):
+                    # every value of the steering byte x several payload lengths (the byte is the 1st / the 3rd of the input)
+                    for L in (5, 8, 13):
+                        payload = bytes(rng.randrange(1, 256) for _ in range(L))
+                        for b in range(256):
+                            inputs.append(bytes([b]) + payload if lname == "signed_shift" else payload[:2] + bytes([b]) + payload[2:])
+                    run.count("special_layout_steering_byte_sweeps")
                 for raw in inputs:
                     def observe(cls):
                         r = harness.lib_unpack(cls, raw)
